@@ -38,7 +38,7 @@ def alt_modfile():
 def goenv(harness=False):
     e = dict(os.environ)
     e["GOPROXY"] = "off"
-    e["GOFLAGS"] = "-mod=mod"
+    e["GOFLAGS"] = "-mod=mod -buildvcs=false"
     if REPO != "/repo":
         e["VERIF_REPO"] = REPO
         if harness:
